@@ -73,7 +73,7 @@ template<class D> void c16_mutators(D& F) { std::istringstream is("(z, 7)"); F.r
 void c16_uses() {
     { Modular<int32_t> a(7); c16_mutators(a); } { Modular<uint32_t> a(7); c16_mutators(a); } { Modular<int64_t> a(7); c16_mutators(a); }
     { Modular<uint64_t> a(7); c16_mutators(a); } { Modular<float> a(7); c16_mutators(a); } { Modular<double> a(7); c16_mutators(a); }
-    { Modular<Integer> a(7); c16_mutators(a); } { Modular<Log16> a(7); c16_mutators(a); } { GFqDom<int64_t> a(3, 2); c16_mutators(a); }
+    { Modular<Integer> a(7); c16_mutators(a); } { Modular<Log16> a(7); c16_mutators(a); } { GFqDom<int64_t> a(3, 2); c16_mutators(a); } { GFqDom<int32_t> a(3, 2); c16_mutators(a); }
     { Modular<int8_t> a(7); c16_mutators(a); } { Modular<uint8_t> a(7); c16_mutators(a); } { Modular<int16_t> a(7); c16_mutators(a); } { Modular<uint16_t> a(7); c16_mutators(a); }
     { Modular<int8_t> a(7), b(11); c16_special(a, b); int8_t r = 0; c16_ring_ops(a, r, r, r); }
     { Modular<uint8_t> a(7), b(11); c16_special(a, b); uint8_t r = 0; c16_ring_ops(a, r, r, r); }
